@@ -10,6 +10,20 @@ import (
 )
 
 func removeWhitespace(data string) (string, bool, error) {
+	// Removing a white space that stands between two stray bytes can join them into another
+	// white space character ("\xc2 \xa0" becomes U+00A0): repeat until nothing is left to remove,
+	// so that applying the transformation to its own output changes nothing.
+	changed := false
+	for {
+		out, removed := removeWhitespaceOnce(data)
+		if !removed {
+			return data, changed, nil
+		}
+		data, changed = out, true
+	}
+}
+
+func removeWhitespaceOnce(data string) (string, bool) {
 	// Bytes are copied as they are: strings.Map would rewrite every invalid UTF-8 byte
 	// into U+FFFD, altering the value without any whitespace being removed.
 	var sb strings.Builder
@@ -28,7 +42,7 @@ func removeWhitespace(data string) (string, bool, error) {
 		i += size
 	}
 	if !changed {
-		return data, false, nil
+		return data, false
 	}
-	return sb.String(), true, nil
+	return sb.String(), true
 }
